@@ -157,8 +157,22 @@ impl TryFrom<&Value> for f64 {
                 Ok(f64::try_from(&Value::Text(s))?)
             }
             Value::Number(v) => Ok(*v),
-            Value::Text(v) => Ok(v.parse::<f64>().unwrap_or(f64::NAN)),
+            Value::Text(v) => Ok(parse_number(v)),
         }
+    }
+}
+
+/// Optional white space, an optional minus sign, a Number (`Digits ('.' Digits?)? | '.' Digits`),
+/// optional white space; any other string converts to NaN.
+fn parse_number(value: &str) -> f64 {
+    let s = value.trim_matches(|c| matches!(c, ' ' | '\t' | '\r' | '\n'));
+    let unsigned = s.strip_prefix('-').unwrap_or(s);
+    let (int, frac) = unsigned.split_once('.').unwrap_or((unsigned, ""));
+    let digits = |v: &str| v.chars().all(|c| c.is_ascii_digit());
+    if digits(int) && digits(frac) && !(int.is_empty() && frac.is_empty()) {
+        s.parse::<f64>().unwrap_or(f64::NAN)
+    } else {
+        f64::NAN
     }
 }
 
